@@ -22,7 +22,7 @@ type c10Params struct {
 
 func c10Gen(tier string, seed int64) []fw.Case {
 	var cs []fw.Case
-	rep := scale(tier, 10, 300)
+	rep := scale(tier, 30, 300)
 	for i := 0; i < 8; i++ {
 		cs = append(cs, fw.Mk(fmt.Sprintf("base-storm-%d", i), c10Params{Mode: "base", N: rep}))
 		cs = append(cs, fw.Mk(fmt.Sprintf("reconnect-storm-%d", i), c10Params{Mode: "reconn", N: rep}))
